@@ -248,10 +248,36 @@ func pollClosed(c chan struct{}) bool {
 }
 
 // thread programs: ["set", v] ["value"] ["value-held", g] ["watch"] (watch = the documented observer loop; never ends)
+// With cfg "inst" = "iface" the scenario runs on Watchable[error] in which the value 0 is the nil error (Set(nil)
+// is a Set like any other).
+type numErr struct{ v int }
+
+func (e *numErr) Error() string { return fmt.Sprint("value ", e.v) }
+
 func runWatch(c *Case) *Obs {
+	if inst, _ := c.Cfg["inst"].(string); inst == "iface" {
+		return runWatchT[error](c, func(v int) error {
+			if v == 0 {
+				return nil
+			}
+			return &numErr{v}
+		}, func(x error) int {
+			if x == nil {
+				return 0
+			}
+			if e, ok := x.(*numErr); ok {
+				return e.v
+			}
+			return -987654321
+		})
+	}
+	return runWatchT[int](c, func(v int) int { return v }, func(x int) int { return x })
+}
+
+func runWatchT[T any](c *Case, mk func(int) T, un func(T) int) *Obs {
 	l := &tlog{}
 	h := l.newShard() // the controller's shard
-	var w xsync.Watchable[int]
+	var w xsync.Watchable[T]
 	ths := cfgThreads(c)
 	gates := &gateSet{}
 	ids := &chanIDs{ids: map[chan struct{}]int{}}
@@ -262,7 +288,8 @@ func runWatch(c *Case) *Obs {
 
 	value := func(h *shard, t int) chan struct{} {
 		h.add("call-value", t)
-		v, ch := w.Value()
+		v0, ch := w.Value()
+		v := un(v0)
 		closed := pollClosed(ch)
 		h.add("ret-value", t, v, closed, ids.id(ch, v))
 		return ch
@@ -274,14 +301,15 @@ func runWatch(c *Case) *Obs {
 			case "set":
 				v := num(a[1])
 				h.add("call-set", t, v)
-				w.Set(v)
+				w.Set(mk(v))
 				h.add("ret-set", t)
 			case "value":
 				value(h, t)
 			case "value-held":
 				// the caller is held between the return of Value and its look at the channel
 				h.add("call-value", t)
-				v, ch := w.Value()
+				v0, ch := w.Value()
+				v := un(v0)
 				gates.get(num(a[1])).wait()
 				closed := pollClosed(ch)
 				h.add("ret-value", t, v, closed, ids.id(ch, v))
@@ -334,7 +362,8 @@ func runWatch(c *Case) *Obs {
 	var final []any
 	var finalClosed [][]any
 	o := finishScenario(l, h, quiet, &wg, func() {
-		v, ch := w.Value()
+		v0, ch := w.Value()
+		v := un(v0)
 		closed := pollClosed(ch)
 		final = []any{v, closed, ids.id(ch, v)}
 		ids.mu.Lock()
